@@ -137,6 +137,8 @@ def run(ctx, rep):
         ok = br is not None and len(br.ops) == 3 and depends_on(g, br.ops[0], c.id) and (br.ops[1][1] in dg or br.ops[2][1] in dg)
     rep.check(ok and len(cs) == 1 and g.loop_of(cs[0].block) is not None, 'R-C06-7', 'state_fscheck: fs_check for every disk, failure is fatal', g.file, '', function='state_fscheck', construct='fatal')
 
+    from .. import comparators
+    comparators.tree_rules(P, rep, 'R-C06-9')
     rep.rule('R-C06-8', 'parity size: parity_chsize of every level to parity_allocated_size*block_size, failure fatal, dominates state_sync_process', 2)
     s = P.fn('state_sync')
     rep.analysed(s)
